@@ -20,10 +20,11 @@ import (
 // from (or poison) the cache entries of another: a replay of the case alone reproduces it.
 
 type seqCase struct {
-	Kind  string   `json:"kind"` // "seq"
-	Doc   string   `json:"doc"`
-	Start []int    `json:"start"`
-	Exprs []string `json:"exprs"`
+	Kind  string       `json:"kind"` // "seq"
+	Doc   string       `json:"doc"`
+	Start []int        `json:"start"`
+	Exprs []string     `json:"exprs"`
+	Pool  *poolPrelude `json:"earlier_document,omitempty"`
 }
 
 var wsBases = [][2]string{{"A", "B"}, {"x", "y"}, {"Ab", "c"}, {"é", "日本"}, {"1", "2"}}
@@ -153,8 +154,7 @@ func genSeqCase(r *vh.Rng, id int) *seqCase {
 // evalExpr (reference DOM, DisableXPathCache, MatchSingle) to each.
 func (rn *runner) runSeq(d *docCtx, c *seqCase, verbose bool) (nonEmpty int) {
 	for i, e := range c.Exprs {
-		ec := &exprCase{Kind: "expr", Doc: c.Doc, Expr: e, Start: c.Start}
-		vh.Current(rn.o, c)
+		ec := &exprCase{Kind: "expr", Doc: c.Doc, Expr: e, Start: c.Start, Pool: c.Pool}
 		out := evalExpr(d, ec)
 		if verbose {
 			fmt.Printf("%2d %-50q idr=%v ref=%v %s\n", i, e, out.IdrHits, out.RefHits, out.bad)
